@@ -62,13 +62,24 @@ Site(site, value, of) == [site |-> site, value |-> value, of |-> of]
 EmbedSites(kv) ==
   {Site("data_signature.issuer_fingerprint_subpacket", "fingerprint", "signer"),
    Site("certification_third_party.issuer_fingerprint_subpacket", "fingerprint", "signer"),
-   Site("attribute_certification_third_party.issuer_fingerprint_subpacket", "fingerprint", "signer")}
+   Site("attribute_certification_third_party.issuer_fingerprint_subpacket", "fingerprint", "signer"),
+   \* a generated certificate: self-certifications and subkey bindings are issued by the primary key, the embedded
+   \* primary-key-binding ("back") signature of a signing subkey is issued by THAT SUBKEY
+   Site("generated_self_signatures.issuer_fingerprint_subpacket", "fingerprint", "primary"),
+   Site("generated_subkey_binding.issuer_fingerprint_subpacket", "fingerprint", "primary"),
+   Site("generated_back_signature.issuer_fingerprint_subpacket", "fingerprint", "signing_subkey")}
   \cup (IF kv = 6 THEN {Site("data_signature.issuer_key_id_subpacket", "absent", "signer"),
+                        Site("generated_self_signatures.issuer_key_id_subpacket", "absent", "primary"),
+                        Site("generated_subkey_binding.issuer_key_id_subpacket", "absent", "primary"),
+                        Site("generated_back_signature.issuer_key_id_subpacket", "absent", "signing_subkey"),
                         Site("ops_v6", "fingerprint", "signer"), Site("ops_v6.custom_subpackets", "fingerprint", "signer"),
                         Site("pkesk_v6", "fingerprint", "recipient_subkey"),
                         \* a v6 recipient inside a v3 PKESK (SEIPDv1 message): its key id, i.e. the high 64 bits of the fingerprint
                         Site("pkesk_v3", "keyid", "recipient_subkey")}
         ELSE {Site("data_signature.issuer_key_id_subpacket", "keyid", "signer"),
+              Site("generated_self_signatures.issuer_key_id_subpacket", "keyid", "primary"),
+              Site("generated_subkey_binding.issuer_key_id_subpacket", "keyid", "primary"),
+              Site("generated_back_signature.issuer_key_id_subpacket", "keyid", "signing_subkey"),
               Site("certification_third_party.issuer_key_id_subpacket", "keyid", "signer"),
               Site("attribute_certification_third_party.issuer_key_id_subpacket", "keyid", "signer"),
               Site("ops_v3", "keyid", "signer"), Site("ops_v3.custom_subpackets", "keyid", "signer"),
